@@ -122,6 +122,31 @@ pub fn run_total(job: &Value, t: &mut Trace) -> usize {
                 Ok(format!("ok {} bytes", out.len()))
             }),
             "blocks" => catch(|| {
+                // the other reading entry points over the same bytes: STREAMINFO only, first block of a kind, the block iterator;
+                // where they succeed they must agree with the full list
+                {
+                    use flac_codec::metadata::{Application, Cuesheet as Cs, Padding, Picture as Pic, SeekTable, Streaminfo, VorbisComment, read_block, read_blocks, read_info};
+                    let info = read_info(Cursor::new(&bytes[..])).ok();
+                    let n_iter = read_blocks(Cursor::new(&bytes[..])).take_while(|b| b.is_ok()).count();
+                    let vc: Option<VorbisComment> = read_block(Cursor::new(&bytes[..])).ok().flatten();
+                    let _: Option<SeekTable> = read_block(Cursor::new(&bytes[..])).ok().flatten();
+                    let _: Option<Cs> = read_block(Cursor::new(&bytes[..])).ok().flatten();
+                    let _: Option<Pic> = read_block(Cursor::new(&bytes[..])).ok().flatten();
+                    let _: Option<Application> = read_block(Cursor::new(&bytes[..])).ok().flatten();
+                    let _: Option<Padding> = read_block(Cursor::new(&bytes[..])).ok().flatten();
+                    let si2: Option<Streaminfo> = read_block(Cursor::new(&bytes[..])).ok().flatten();
+                    if let Ok(bl) = BlockList::read(Cursor::new(&bytes[..])) {
+                        if info.as_ref() != Some(bl.streaminfo()) || si2.as_ref() != Some(bl.streaminfo()) {
+                            return Err("read_info / read_block::<Streaminfo> disagree with BlockList::read".into());
+                        }
+                        if n_iter != bl.blocks().count() {
+                            return Err("read_blocks yields a different number of blocks than BlockList::read".into());
+                        }
+                        if vc.as_ref() != bl.get::<VorbisComment>() {
+                            return Err("read_block::<VorbisComment> disagrees with BlockList::read".into());
+                        }
+                    }
+                }
                 let bl = BlockList::read(Cursor::new(&bytes[..])).map_err(|e| e.to_string())?;
                 // every accessor on a block list that parsed
                 let mut s = format!("{:?} {:?} {:?} {} {} {}", bl.duration(), bl.decoded_len(), bl.channel_mask(), bl.channel_count(), bl.sample_rate(), bl.bits_per_sample());
@@ -154,6 +179,7 @@ pub fn run_total(job: &Value, t: &mut Trace) -> usize {
             Ok(Err(e)) => {
                 ev["ret"] = json!("err");
                 ev["rewrite_failed"] = json!(e.starts_with("write:") || e.starts_with("reread"));
+                ev["entry_points_disagree"] = json!(e.starts_with("read_"));
                 ev["msg"] = json!(e);
             }
             Err(p) => {
